@@ -30,8 +30,11 @@ ASSUME = [
     "the twin instance B is driven with the same calls except those whose return value on A was negative",
     "'audible behaviour' = hash of every chip register / pan write (hook H1) of opn2_reset + a fixed 3-note phrase, plus the PCM hash "
     "for the deterministic cores (GENS and the VGM dumper are compared on register writes only)",
-    "test inputs are three fixed WOPN banks, two fixed SMF songs and one EA-MUS (RSXX) song built by the harness (mirrored by "
-    "BankHdr/BankDigest/Song in spec/Settings.tla); rejected files = wrong magic / truncated / empty / garbage / broken MTrk or rsxx signature",
+    "test inputs are three fixed WOPN banks, two fixed SMF songs, one EA-MUS (RSXX), one GMF, one DMX MUS and one XMIDI song built by the "
+    "harness (mirrored by BankHdr/BankDigest/Song in spec/Settings.tla); rejected files = wrong magic / truncated / empty / garbage / "
+    "broken MTrk or rsxx signature / a well-formed CMF or IMF image (formats the player refuses)",
+    "music mode (m_synth->m_musicMode) and sequencer file format (BW_MidiSequencer::getFormat()) are read from the live objects; the "
+    "XMIDI song is only loaded in the mixed-format sequences, where no song number is selected",
     "set-up lock (Synth::setupLocked(), entered by loading the EA-MUS song): the documented state of the monitors takes the format's "
     "Generic volume model and two chips as in force while locked, the m_setup getters (opn2_getNumChips) and the projected m_setup "
     "fields (vm, pcm) as 'the stored request', and accepted bank loads / opn2_setChipType / ordinary music loads as the calls that end "
@@ -102,6 +105,7 @@ def check_c18(pid, tier, replay):
         ("setup_locked_by_ea_mus_song", gen_settings.locked_histories(rng, 140 if q else None)),
         ("invalid_call_pairs", gen_settings.exhaustive_pairs(rng, 200 if q else 2500)),
         ("dumper_round_trips", gen_settings.dumper_histories(rng, 12 if q else 120)),
+        ("mixed_format_load_sequences", gen_settings.format_sequences(rng, 1 if q else 10, 20 if q else 400)),
         ("random", [gen_settings.random_history(rng, 14 if q else 24) for _ in range(220 if q else 2500)]),
     ]
     histories = [h for (_, hs) in parts for h in hs]
@@ -128,7 +132,9 @@ def check_c18(pid, tier, replay):
         "monitor_counters": counters,
         "setup_lock": {k: counters.get(k, 0) for k in ("lockenter", "locksteps", "lockstick", "lockdefer", "lockrelease", "lockapply",
                                                         "lockreject", "lockplay")},
-        "samples": sample(parts[5][1], 2) + sample(parts[1][1][40:], 1) + sample(parts[2][1], 1) + sample(beh, 1),
+        "load_sequences": {k: counters.get(k, 0) for k in ("loadjudged", "loadgmf", "loadmus", "loadxmi", "refusedimf", "refusedcmf",
+                                                            "loadafterlock", "loadafterrefused", "loadafterxmi", "loadthird")},
+        "samples": sample(parts[6][1], 2) + sample(parts[5][1][3:], 2, 20) + sample(parts[1][1][40:], 1) + sample(parts[2][1], 1) + sample(beh, 1),
         "model_runs": [{"scope": r.scope, "ok": r.ok, "violation": r.violation, "distinct": r.distinct, "generated": r.generated,
                         "wall_s": round(r.wall, 1)} for r in mruns] +
                       [{"scope": asis.scope, "violation_labels_of_the_as_is_model": asis.labels, "distinct": asis.distinct,
